@@ -255,7 +255,7 @@ func RunCheck(ctx *Ctx, prepare func(*Ctx) (*Prepared, error), level string) int
 			}
 			// translation validation: path witnesses are replayed natively (quick
 			// tier: for every third package, thorough: all)
-			if ctx.Tier == "thorough" || len(jobs) < 8 || pkgSample(pk) {
+			if ctx.Tier == "thorough" || len(prep.Targets) < 20 || pkgSample(pk) {
 				for _, w := range fr.Witnesses {
 					witnesses[pk] = append(witnesses[pk], ReplayCase{Func: h, Script: w, Runs: 1})
 				}
